@@ -46,6 +46,7 @@ def run(chk):
     chk.rule("R5", "cache after Join: cols = both inputs, visible = left then right; both compilers agree")
     chk.rule("R6", "join rejects: different back ends, grouped inputs, common ancestor, user-suffix collision, non-boolean on, window functions in on")
     chk.rule("R7", "equality predicates are oriented (left, right) before Polars join(left_on=, right_on=)")
+    chk.rule("R8v", "Polars join interpreted on schema-level frame stubs (5 collision shapes of hidden / visible names x equality, inequality, cross paths x inner / left): visible columns keep their names, the name map is injective and points into the joined frame, nothing is lost")
     chk.rule("R8h", "rename_overwritten_cols: one fresh-name map over the colliding names renames the frame and rewrites the uuid -> name map")
     chk.rule("R8", "Polars join: after the renaming passes no physical name is in both frames and visible names are unchanged (finite-state analysis over name classes)")
 
@@ -246,14 +247,39 @@ def run(chk):
     # ---- R8 physical-name collisions in the Polars join
     from .. import collide
 
+    # decided by interpretation (polsim): the Join branch on schema-level frame stubs for every collision shape x join path
+    from .. import polsim
+    from ..interp import PyRaise as _PR, SymbolicBranch as _SB
+    from ..rules.c17 import m_types_env as _mte
+    from ..sqlsim import branch_body as _bb
+
+    join_names_decided = False
+    try:
+        jb = _bb(pcfg.func, pcfg.subject, "Join")
+        if jb is None:
+            raise AnalysisError("no `isinstance(nd, Join)` branch in the Polars compile_ast")
+        res_j = polsim.join_name_scenarios(polsim.PolWorld(repo, _mte(m)), jb)
+        join_names_decided = True
+        for desc, ok_, detail in res_j:
+            chk.ob("R8v", pol, pcfg.func, f"polars Join interpreted: {desc}", ok_, detail)
+        chk.floor("R8v", "Polars join naming scenarios", len(res_j), 25)
+    except (AnalysisError, _SB) as e:
+        chk.note(f"R8v: the Polars Join branch could not be interpreted ({str(e)[:140]}); judged by the name-class analysis R8")
+    except _PR as p_:
+        join_names_decided = True
+        chk.ob("R8v", pol, pcfg.func, "polars Join branch on frame stubs", False, f"setting up the Join branch raises {p_.name}: {p_.msg}")
+
     pstmts = [it.node if isinstance(it, Cond) else it for it in items]
     try:
+        if join_names_decided:
+            raise collide.Undecided("decided by R8v")
         passes, problems = collide.analyse(pstmts)
         chk.floor("R8", "rename_overwritten_cols passes in the Polars join", len(passes), 2)
         chk.ob("R8", pol, pcfg.func, f"polars Join: {len(passes)} renaming passes leave disjoint physical names and keep visible names", not problems,
                "Polars join collision handling: " + "; ".join(dict.fromkeys(problems)))  # fmt: skip
     except collide.Undecided as u:
-        chk.note(f"R8: collision analysis undecided ({u}); no verdict")
+        if not join_names_decided:
+            chk.note(f"R8: collision analysis undecided ({u}); no verdict")
     rn = pol.func("rename_overwritten_cols")
     # structural: one map {old name -> fresh name} over the colliding names; the frame is renamed with it and the
     # uuid -> name map is rewritten through it (subscript or .get with the old name as fallback)
